@@ -41,11 +41,13 @@ const (
 	opByz
 	opDenied
 	opReader
+	opTamper
+	opPolicy
 	nOps
 )
 
 var opNames = [...]string{"end", "append", "joinlive", "send", "deliver", "publish", "crash", "restart", "partition", "heal",
-	"clockjump", "special", "setid", "algebra", "stall", "iter", "bounded", "byz", "denied", "reader"}
+	"clockjump", "special", "setid", "algebra", "stall", "iter", "bounded", "byz", "denied", "reader", "tamper", "policy"}
 
 type Profile struct {
 	Prop    string
@@ -190,6 +192,9 @@ func NewWorld(r *Run, p *Profile) *World {
 		w.F.clockjump = r.Bool("f-clock", 1, 2)
 	}
 	w.setupCodec()
+	if w.Codec == "pb" {
+		w.F.crash = false // the legacy codec cannot read back what it writes for v2 entries: in-memory exchange only
+	}
 	ws := Writers()
 	for i := 0; i < nrep; i++ {
 		n := &Node{Idx: i, W: ws[i%w.NW], Set: map[string]bool{}, Up: true}
@@ -343,6 +348,7 @@ func (w *World) doAppend() {
 		w.checkAppend(n, e, me, before, maxT, pc)
 	}
 	n.Set[me.Hash] = true
+	w.afterAppend(n, e, me)
 	if w.R.Bool("persist-hash", 1, 3) {
 		n.Durable = &durablePtr{kind: 1, c: e.GetHash(), set: copySet(n.Set)}
 	}
@@ -448,8 +454,8 @@ func (w *World) doSend() {
 	if from == nil || toIdx == from.Idx {
 		return
 	}
-	if len(from.Set) == 0 {
-		form = 0
+	if len(from.Set) == 0 || w.Codec == "pb" {
+		form = form % 2
 	}
 	m := &Msg{id: w.msgSeq, from: from.Idx, to: toIdx, form: form, set: copySet(from.Set)}
 	w.msgSeq++
@@ -590,6 +596,7 @@ func (w *World) doPublish() {
 		w.R.Violate(w.P.Prop+":publish-error", "ToMultihash on a non-empty log failed: %v", err)
 	}
 	n.Durable = &durablePtr{kind: 0, c: c, set: copySet(n.Set)}
+	w.checkManifest(n, c)
 	w.R.Logf("publish n%d manifest=%s |set|=%d", n.Idx, c.String(), len(n.Set))
 }
 
